@@ -13,6 +13,7 @@ import (
 type rscen struct {
 	Pacer   string `json:"pacer"`
 	Lower   bool   `json:"lower_rate_while_draining,omitempty"`
+	Backlog bool   `json:"write_lands_while_backlog_drains,omitempty"`
 	SetRate bool   `json:"set_rate_thread"`
 	Horizon int    `json:"horizon"`
 	Bound   int    `json:"deviation_bound"`
@@ -84,9 +85,70 @@ func lowerBody(c rscen, ctx *hk.Ctx) {
 	ctx.Outcome("released-after-setrate=%d", after)
 }
 
+// backlogBody: three 1000-byte packets are accepted first (at 1 Mbit/s one 5 ms interval pays for 625 bytes,
+// so every tick runs out of budget with packets still queued); a writer then gets two more packets accepted
+// while the pacer goroutine drains. All five were accepted in a known order and must leave in that order.
+func backlogBody(c rscen, ctx *hk.Ctx) {
+	sys, err := newSystem(config{Pacer: c.Pacer, Interval: 5, Rate: 1_000_000})
+	if err != nil {
+		ctx.Fail("C17:setup", "%v", err)
+		return
+	}
+	mkp := func(q uint16) (*rtp.Header, []byte) {
+		h := &rtp.Header{Version: 2, PayloadType: 96, SequenceNumber: q, SSRC: ssrc(1)}
+		p := make([]byte, 988)
+		p[0], p[987] = byte(q), 7
+		return h, p
+	}
+	for q := uint16(1); q <= 3; q++ {
+		h, p := mkp(q)
+		if _, err := sys.api.write(1, h, p); err != nil {
+			ctx.Fail("C17:setup", "write: %v", err)
+			return
+		}
+	}
+	accepted := []uint16{1, 2, 3}
+	w := vsched.GoApp("writer", func() {
+		for q := uint16(4); q <= 5; q++ {
+			h, p := mkp(q)
+			if _, err := sys.api.write(1, h, p); err == nil {
+				accepted = append(accepted, q)
+			}
+		}
+	})
+	w.Join()
+	for k := 0; k < 60 && len(sys.t.RTP) < len(accepted); k++ {
+		vsched.Advance(5 * time.Millisecond)
+	}
+	_ = sys.api.close()
+	vsched.Quiesce()
+	vsched.AcquireFinished()
+	order := ""
+	for i, r := range sys.t.RTP {
+		order += fmt.Sprint(r.Header.SequenceNumber, ",")
+		if len(r.Payload) != 988 || r.Payload[0] != byte(r.Header.SequenceNumber) || r.Payload[987] != 7 {
+			ctx.Fail("C17:packet-altered", "packet %d delivered with a payload of %d bytes starting %x", r.Header.SequenceNumber, len(r.Payload), r.Payload[:1])
+			return
+		}
+		if i < len(accepted) && r.Header.SequenceNumber != accepted[i] {
+			ctx.Fail("C17:reordered-or-skipped", "packets were accepted in the order %v and delivered in the order %s...", accepted, order)
+			return
+		}
+	}
+	if len(sys.t.RTP) != len(accepted) {
+		ctx.Fail("C17:accepted-packet-never-delivered:"+c.Pacer, "%d packets accepted, %d delivered (%s)", len(accepted), len(sys.t.RTP), order)
+		return
+	}
+	ctx.Outcome("%s", order)
+}
+
 func rbody(c rscen, ctx *hk.Ctx) {
 	if c.Lower {
 		lowerBody(c, ctx)
+		return
+	}
+	if c.Backlog {
+		backlogBody(c, ctx)
 		return
 	}
 	sys, err := newSystem(config{Pacer: c.Pacer, Interval: 5, Rate: 1_000_000})
@@ -176,6 +238,7 @@ func rscenarios(tier string) []rscen {
 		}
 	}
 	out = append(out, rscen{Pacer: "token-bucket", Lower: true, Horizon: 2, Bound: b + 1})
+	out = append(out, rscen{Pacer: "leaky-bucket", Backlog: true, Horizon: 2, Bound: b + 1}, rscen{Pacer: "token-bucket", Backlog: true, Horizon: 2, Bound: b + 1})
 	return out
 }
 
@@ -186,7 +249,7 @@ func rscenario(c rscen) *hk.Scenario {
 func init() {
 	hk.Register(&hk.Check{
 		ID:          "C17R",
-		Rule:        "E1 schedule exploration (-race): two writers on the same stream (two packets each) || optional SetRate || the pacer goroutine and up to two timer firings, then a deterministic drain; oracle: every accepted packet delivered exactly once and intact, the packets of each writer in the order its Write calls returned; outcomes = delivery orders",
+		Rule:        "E1 schedule exploration (-race): two writers on the same stream (two packets each) || optional SetRate || the pacer goroutine and up to two timer firings, then a deterministic drain; oracle: every accepted packet delivered exactly once and intact, the packets of each writer in the order its Write calls returned; outcomes = delivery orders. Scenario write_lands_while_backlog_drains: three 1000-byte packets queued (every tick runs out of budget), a writer gets two more accepted while the pacer drains; all five must leave in acceptance order",
 		Assumptions: []string{"vsched model and race annotations (litmus suite)"},
 		Jobs: func(tier string) []string {
 			var n []string
